@@ -29,10 +29,13 @@ SortedSeq(S) == IF S = {} THEN <<>>
 \*   body : lines that follow the entity's first line and belong to it (description, background, steps)
 \*   tag  : "none" | "setup" | "teardown"  (one more line in front: the tag line)
 \*   nt   : a row that opens a new Examples table (two more lines in front: "Examples:" and the heading row)
+\*   et   : heading-only Examples table (an "Examples:" line and a heading row, NO data rows; it contributes no
+\*          entity but exists in the file): 0 none, 1 in front of the table this row opens (nt rows only: two
+\*          more lines in front), 2 after this row (last row of its outline only: counted in body = 2)
 \* This is the rendering contract: the driver renders exactly these line counts.
-Item(k, pre, body, tag, nt) == [k |-> k, pre |-> pre, body |-> body, tag |-> tag, nt |-> nt]
+Item(k, pre, body, tag, nt, et) == [k |-> k, pre |-> pre, body |-> body, tag |-> tag, nt |-> nt, et |-> et]
 TagLine(it)   == IF it.tag = "none" THEN 0 ELSE 1
-HeadLines(it) == IF it.k = "row" /\ it.nt THEN 2 ELSE 0
+HeadLines(it) == IF it.k = "row" /\ it.nt THEN (IF it.et = 1 THEN 4 ELSE 2) ELSE 0
 
 \* entity: k, line (start line), par (index of the containing entity, 0 for the feature), tag, tab (examples table no.)
 RECURSIVE TableRec(_,_,_)
